@@ -147,6 +147,9 @@ func refEq(a, b reflect.Value, top bool, depth int) bool {
 		return true
 	case reflect.Struct:
 		for i := 0; i < a.NumField(); i++ {
+			if t.Field(i).Name == "_" {
+				continue // blank fields are not part of a struct's value (== ignores them too)
+			}
 			if !refEq(field(a, i), field(b, i), false, depth+1) {
 				return false
 			}
